@@ -332,6 +332,22 @@ pub fn execute(h: &History, want: &str, rep: &mut Report) -> Option<Violation> {
                     let prev = cur;
                     let prev_tick = last_tick.unwrap_or(cur);
                     call!(lfo.tick(), i, Some(t));
+                    if want == "C12" {
+                        // if the counter cannot be read back after this tick (an up-saw outside its range: a C10 matter)
+                        // the history ends here, but the step bound in terms of the commanded phase step still applies
+                        let up = call!(lfo.get(Waveshape::UpSaw), i, Some(t));
+                        let kf = (up as f64 + 1.0) * 8_388_608.0;
+                        if !(kf >= 0.0 && kf < TWO24 && kf.fract() == 0.0) {
+                            let (s, tr) = call!((lfo.get(Waveshape::Sine), lfo.get(Waveshape::Triangle)), i, Some(t));
+                            let m = (ideal % TWO24 + TWO24) % TWO24;
+                            let dphi_cmd = (m.min(TWO24 - m) + ideal / 8_388_608.0 + 2.0) / TWO24;
+                            let ds = (s as f64 - prev_tick.sine as f64).abs();
+                            let dt = (tr as f64 - prev_tick.tri as f64).abs();
+                            if !(dt <= 4.0 * dphi_cmd + 1e-12) || !(ds <= 2.0 * std::f64::consts::PI * 1.002 * dphi_cmd + 2.0 / 8_388_608.0) {
+                                fail!("C12", "step-with-unreadable-phase", format!("sine moved {:e} and triangle {:e} in one tick while the frequency in force commands a phase step of {:e} (UpSaw={} is not a phase, so the step actually taken cannot be read back)", ds, dt, dphi_cmd, fmt_f32(up)), i, Some(t));
+                            }
+                        }
+                    }
                     cur = obs!(t as u8, i, Some(t));
                     last_tick = Some(cur);
                     n_eval += 1;
